@@ -4,6 +4,28 @@ import json, os, sys
 sys.path.insert(0, os.path.dirname(os.path.abspath(__file__)))
 from props import PROPS, PENDING
 
+TECHNIQUE = {
+ "C01": "Coq proof: ingest model = sorted key-dedup of the input for every run partition / sort / block arrival order; tie obligations on regenerated constants; differential execution",
+ "C02": "Coq proof: canonical form and injectivity of the table object (corollaries of the C01 characterisation); differential execution over permutations, run sizes, workers, stores",
+ "C03": "Coq proof: WF_table invariant of every table produced through the sorter; row-address arithmetic; differential execution over all four producers",
+ "C04": "Coq proof: window-search invariant by induction over blocks, diff = spec as lists; differential execution incl. exhaustive window scopes and the CLI",
+ "C05": "Coq proof (partial): row-level resolver = name-based spec for any number of layers; table-level laws under the same-layout guard; refuted-witness theorems for the known findings; differential execution",
+ "C06": "Coq proof: decode(encode x)=x and canonicity per format, varint header for all u<2^64, store keyed by hash; differential execution incl. boundary counts and over-limit values",
+ "C07": "Coq proof: sender/receiver state machines, exactness and gates by induction over arbitrary object streams; differential execution incl. hostile streams",
+ "C08": "Coq proof: cover/order/soundness of the literal walks for every want order and multi-round session; exponential count proved for all n (refutation); differential execution",
+ "C09": "Coq proof (partial): client session state machine composed with a reference server model, closure of updated refs under any single lost response; differential execution against an in-process reference server",
+ "C10": "Coq proof: forward-only invariant over histories of fetch/push/merge/pull; finite decision tables proved exhaustively; differential execution of the CLI",
+ "C11": "Coq proof: worklist invariant for any placement (= any timestamps), ancestor test and 2-input merge base correct, >=3-input refutation; differential execution (exhaustive DAGs <=5)",
+ "C12": "Coq proof: prune plan safe at every prefix, complete, idempotent, re-runnable (children-first Kahn order proved); differential execution with recorded delete traces",
+ "C13": "Coq proof (partial): invariant preserved by every single atomic write of every operation under any worker interleaving, parametric in regenerated write-order skeletons; crash-prefix replay against real stores",
+ "C14": "Coq proof (partial): write-list model of Commit/Discard, all-or-completable for every cut and enumeration order; fault injection at every store call and inside SQL statements",
+ "C15": "Coq proof: SQL-statement model refines a plain map with logs for every op sequence (simulation); instr = literal prefix; differential execution on real SQLite",
+ "C16": "Coq proof (partial): interleaving semantics generated from the regenerated lockset skeleton, sequential result under every schedule; forced-schedule and fault soak",
+ "C17": "Coq proof: decoders in an explicit panic/allocation monad never Panic, fuel linear, allocation <= c|b|+k; receiver keeps the store closed for every packfile; differential execution on mutated encodings",
+ "C18": "Coq proof: io.ReadFull / CopyN partition-independent, lifted to every decoder built from them, for every byte string and partition; tie: all read sites Full; differential execution under chunked readers",
+ "C19": "Coq proof: k-way merge of any sorted-run partition = sorted key-dedup, both outputs agree, cleanup over Reset histories; differential execution",
+ "C20": "Coq proof: refinement of the on-disk hash set to an abstract set for every operation sequence (simulation), shift-from-the-back merge kernel; differential execution incl. raw file bytes",
+}
 VERIF = os.path.dirname(os.path.dirname(os.path.abspath(__file__)))
 ids = [json.loads(l)["id"] for l in open(os.path.join(VERIF, "properties.jsonl"))]
 checks = []
@@ -20,7 +42,7 @@ for pid in ids:
         engine="coq-proof+correspondence",
         level_claimed=dict(category="proof", text=c["level_text"], design_ref=c.get("design_ref", "DESIGN.md section 8 (%s)" % pid)),
         level_note=c["level_note"],
-        technique=c.get("technique", "machine-checked proof in Coq 8.16.1 of theorems over an executable Gallina model, tied to /repo by translator-regenerated obligations and differential execution of the extracted model against the Go implementation"),
+        technique=c.get("technique", TECHNIQUE.get(pid)) or ("machine-checked proof in Coq 8.16.1 of theorems over an executable Gallina model, tied to /repo by translator-regenerated obligations and differential execution of the extracted model against the Go implementation"),
     ))
 m = dict(
     version=1,
